@@ -24,6 +24,8 @@ pub fn gen_stmt(
                 if let Node::Id { lit } = &name.node {
                     let raises = HashSet::from_iter([TrueName::from(lit.as_str())]);
                     check_raises_caught(&raises, env, ctx, ast.pos)?;
+                    // What is raised is made by a constructor call like any other.
+                    generate(error, env, ctx, constr)?;
                     Ok(env.clone())
                 } else {
                     Err(vec![TypeErr::new(
